@@ -96,7 +96,7 @@ def worker(ctx):
                 for name, v in probes.probe_values(m, t, full):
                     work.append((m, t, name, v))
                     for it in ref.leaves(m, v):
-                        if it.path[0] in (2, 3, 4, 5, 6, 7, 8):
+                        if it.path[0] in (2, 3, 4, 5, 6, 7, 8, 10):
                             res.observe("cells", f"{t.text()}@{it.offset % 8}:{probes.position_of(it.path)}")
             # ---- Python runtime ---------------------------------------------
             mods = sut_py.PyModules(dstd, root)
@@ -207,8 +207,8 @@ GO = True
 
 def extra(res):
     cells = res.sets.get("cells", set())
-    return {"cells_observed": len(cells), "cells_in_space": 130 * 8 * 4,
-            "exhaustive": len(cells) == 130 * 8 * 4 and res.counters.get("full_basis", 0) > 0 and not res.budget_exhausted}
+    return {"cells_observed": len(cells), "cells_in_space": 130 * 8 * 5,
+            "exhaustive": len(cells) == 130 * 8 * 5 and res.counters.get("full_basis", 0) > 0 and not res.budget_exhausted}
 
 
 if __name__ == "__main__":
@@ -216,7 +216,7 @@ if __name__ == "__main__":
     harness.main(
         "C14", "props.C14", worker,
         rule=("the finite space {bool, byte, uint1..64, int1..64} x start offset 0..7 x position {scalar, array element (capacities 1,2,3,5; "
-              "8/16/32/64-bit elements take the C batch path), alias, alias of array}: one probe message per (type, pad width) whose "
+              "8/16/32/64-bit elements take the C batch path), alias, alias of array, 2-D array of alias-of-array rows}: one probe message per (type, pad width) whose "
               "fields put every position at every offset; per probed leaf each basis value alone (0, all-ones, single bits, min, max, -1, "
               "0x55.., 0xAA..) and all leaves together; run through the Python runtime (trace monitor), the C runtime in standard mode "
               "(gcc/clang -O0/-O2/-O3, ASan+UBSan, guard pages, big-endian builds on big-endian-laid storage) and -O code (little/big/both); "
